@@ -16,7 +16,7 @@ open W2c2Verif W2c2Verif.WasiPath
     one of them regenerates Gen/WasiPath.lean and breaks this obligation). -/
 theorem gen_assumptions_path :
     Gen.WasiPath.absChar = 47 ∧ Gen.WasiPath.sepTestChar = 47 ∧ Gen.WasiPath.sepChar = 47 ∧
-    Gen.WasiPath.terminator = 0 ∧ Gen.WasiPath.rejectsNul = true ∧
+    Gen.WasiPath.terminator = 0 ∧ Gen.WasiPath.rejectsNul = true ∧ Gen.WasiPath.nulCheckAfterLength = true ∧
     Gen.WasiPath.resolvePathMemcpys =
       ["result, path, pathLength", "result, directory, totalLength", "result + totalLength, path, pathLength"] ∧
     Gen.WasiPath.pathCalls.map (fun c => c.2.2) = [1, 1, 1, 2, 1, 1, 1] := by
@@ -143,6 +143,21 @@ theorem resolvePath_in_bounds (pm : Nat) (dir tl avail : Bytes) (len : Nat) (buf
   · rw [resolvePath_spec pm dir tl avail len buf hdir0 hdne hlen hbuf,
       resolvePath_spec pm dir tl (avail.take len) len buf hdir0 hdne (by simp [Nat.min_eq_left hlen]) hbuf]
     simp [List.take_take]
+
+/-- **resolvePath_long_rejected_unread.**  The hypothesis `len ≤ avail.length` of
+    `resolvePath_in_bounds` is needed only for lengths the length guards accept: when the guard of the
+    branch fails (`path[0] = '/'` and `len ≥ PATH_MAX`, or relative and `|dir| + len + 1 ≥ PATH_MAX`)
+    the call returns false having read nothing of the guest path beyond `path[0]` — the guest memory
+    may end directly after that byte (`rest = []`), for ANY claimed length.  (The NUL scan comes
+    after the length guards; before /repo commit f405bde it came first and over-read.) -/
+theorem resolvePath_long_rejected_unread (pm : Nat) (dir tl : Bytes) (c0 : UInt8) (rest : Bytes) (len : Nat)
+    (buf : Bytes) (hdir0 : (0 : UInt8) ∉ dir) (hlen : 0 < len)
+    (hlong : (c0 = 47 ∧ pm ≤ len) ∨ (c0 ≠ 47 ∧ pm ≤ dir.length + len + 1)) :
+    resolvePath pm (dir ++ 0 :: tl) (c0 :: rest) len buf = .val none :=
+  resolvePath_long_reads_only_first pm dir tl c0 rest len buf hdir0 hlen hlong
+
+/-- a claimed length of 5000 with ONE byte of guest memory left: rejected, no over-read -/
+example : resolvePath 4096 [47, 116, 0] [97] 5000 [] = .val none := by decide
 
 /-- the hypotheses of the two theorems are satisfiable, and both separator cases occur
     (`/tmp` = 47 116 109 112, `a/b` = 97 47 98) -/
